@@ -400,13 +400,13 @@ pub fn check_spec(id: &str) -> CheckSpec {
         "C04" => CheckSpec { id: "C04", runs_quick: 250_000, runs_thorough: 5_000_000, level: "fault_enumeration", rule: "cases = (even indices) seeded (block, pre-state, config, fault plan, schedule) tuples with 1-2 random error rules; (odd indices) systematic enumeration: consecutive cases share one generated block and walk through its fault plans in a fixed order - every database key the in-order reference reads (account, slot, code hash, block hash), every key only a stale attempt reads (reference with one predecessor removed), the fee recipient, crossed with persistent / fail-once / fail-at-second-call - 24 plans per block in the quick tier, 64 in the thorough tier, each under its own seeded schedule (see reach.case_groups for the split); all run through the real pipeline under the simulator; a case is non-trivial if it had a re-execution, validation conflict, erroring attempt, sequential fallback, fired fault or did not complete; distinct = distinct abstract behaviour (per-tx #incarnations and #validations, abort kinds, fallback start, #commits) among non-trivial cases" },
         "C06" => CheckSpec { id: "C06", runs_quick: 120_000, runs_thorough: 3_000_000, level: "exploration", rule: "cases = seeded blocks (all profiles, all four delegated-safety policy combinations, a quarter on a persistently faulty database), each executed five ways: simulated parallel run, simulated parallel run with another worker count and schedule, min_parallel_txs above the block size, force_sequential, fallback_sequential() entry; non-trivial = a re-execution, erroring attempt, fallback or error result; distinct = distinct abstract behaviour" },
         "C05" => CheckSpec { id: "C05", runs_quick: 300_000, runs_thorough: 6_000_000, level: "exploration", rule: rule_pipeline },
-        "C07" => CheckSpec { id: "C07", runs_quick: 250_000, runs_thorough: 5_000_000, level: "exploration", rule: rule_pipeline },
+        "C07" => CheckSpec { id: "C07", runs_quick: 250_000, runs_thorough: 5_000_000, level: "exploration", rule: "cases = (group beneficiary) seeded (block, pre-state, config, schedule) tuples of the beneficiary profile run through the real pipeline under the simulator, plus (group beneficiary-history) seeded scenarios of the production beneficiary history under 2-3 concurrent tasks (record / estimate / invalidate with rising, stale and duplicate incarnations; resolve / validate), checked against an exact sequential entry model and the scan-timeline oracle; a pipeline case is non-trivial if it had a re-execution, validation conflict, erroring attempt or sequential fallback, a component case if some read overlapped a mutation; distinct = distinct abstract behaviour (pipeline: per-tx #incarnations / #validations / aborts; component: digest of read intervals and quiescent validation results) among non-trivial cases" },
         "C08" => CheckSpec { id: "C08", runs_quick: 250_000, runs_thorough: 5_000_000, level: "exploration", rule: rule_pipeline },
         "C09" => CheckSpec { id: "C09", runs_quick: 250_000, runs_thorough: 5_000_000, level: "exploration", rule: rule_pipeline },
-        "C10" => CheckSpec { id: "C10", runs_quick: 250_000, runs_thorough: 5_000_000, level: "exploration", rule: rule_pipeline },
+        "C10" => CheckSpec { id: "C10", runs_quick: 250_000, runs_thorough: 5_000_000, level: "exploration", rule: "cases = three families (see reach.case_groups): pipeline runs on a cold cache with read-back of every key the reference touched (half of them two consecutive blocks on one state); state-readers: 1-3 reader tasks against an in-order committer on the production split views, history = real journal output; history-differential: sequential operation histories (commits, balance increments / drains, merges, extractions, account / slot / block-hash reads) applied to ParallelState and revm State alike; non-trivial = pipeline: re-execution / conflict / fallback, state-readers: some read overlapped a commit, history: more than three operations; distinct = distinct abstract behaviour digest of the family among non-trivial cases" },
         "C11" => CheckSpec { id: "C11", runs_quick: 250_000, runs_thorough: 5_000_000, level: "exploration", rule: rule_pipeline },
         "C14" => CheckSpec { id: "C14", runs_quick: 250_000, runs_thorough: 5_000_000, level: "exploration", rule: rule_pipeline },
-        "C13" => CheckSpec { id: "C13", runs_quick: 160_000, runs_thorough: 5_000_000, level: "exploration", rule: rule_pipeline },
+        "C13" => CheckSpec { id: "C13", runs_quick: 160_000, runs_thorough: 5_000_000, level: "exploration", rule: "cases = seeded blocks of the reserve profile; with the reserve policy alone (Prague+) a case is one simulated parallel run checked against the independent rule model (outcomes, every commit, bundle) plus five further runs for path agreement (other worker count, threshold path, force_sequential, fallback entry) and the fundability invariant; with the CREATE guard on only the five-way relation; policy off or pre-Prague one simulated run against stock revm; non-trivial = re-execution, erroring attempt, fallback or error result; distinct = distinct abstract behaviour among non-trivial cases (probe.reserve_model_* counters report how many blocks / debit transactions / charged reverts the model decided)" },
         other => panic!("unknown check {other}"),
     }
 }
